@@ -849,6 +849,13 @@ func (m *Model) stepCreate(in *In, out *Out) error {
 			return nil
 		}
 	}
+	if in.K == "symlink" && m.Lim.WtMax > 0 && uint64(len(in.Data)) > m.Lim.WtMax {
+		// a link target longer than the largest WRITE the server accepts: refusing it
+		// (without effect) is fine, as no limit for link targets is announced
+		if out == nil || out.Status != stOK {
+			return nil
+		}
+	}
 	if !out.ok() {
 		if m.spaceFail(out) {
 			return nil
